@@ -21,6 +21,9 @@ import Golib.Queue.Conc
 import Golib.Queue.Fair
 import Golib.Queue.Timed
 import Golib.Queue.Findings
+import Golib.Queue.Composite
+import Golib.Conc.Callback
+import Golib.Conc.SeqSpec
 
 namespace C11
 open Queue
@@ -246,6 +249,45 @@ theorem double_get_serves_second_iff (d : DQ) (op : DOp) (hop : op = .get ∨ op
 
 example : (timedGetQ 100 ⟨[], 2⟩ [⟨[], 40⟩, ⟨[.put 7], 80⟩, ⟨[], 120⟩]).2.1 = some (.got 7) := by decide
 example : (timedGetQ 100 ⟨[], 2⟩ [⟨[], 40⟩, ⟨[.put 7, .get], 80⟩, ⟨[], 120⟩]).2.1 = some (.timedOut 120) := by decide
+
+/-! ### the double queue's composite operations (Size, Clear over two lists) under the outer lock -/
+
+/-- under the queue's lock, Clear is exactly its two halves one after the other, and Size adds two sizes
+    read from one and the same state; that nothing of another thread falls between the halves, for every
+    schedule, is `composite_body_is_exclusive` below; that every method holds the lock is
+    `C11Gen.RequestDoubleQueue_<Method>_locked` -/
+theorem composite_ops_are_their_halves (d : DQ) :
+    (dstep d .clear).1 = microRun d [.clear1, .clear2] ∧
+    (dstep d .size).2.1 = .int (d.q1.size + d.q2.size) ∧ (dstep d .size).1 = d :=
+  ⟨clear_is_its_two_halves d, size_is_sum_of_one_state d⟩
+
+open Conc in
+/-- for every schedule: while a thread is inside the body of an operation on the double queue (between
+    `Lock()` and `Unlock()` of the outer lock), no step of any other thread changes either list, acquires
+    the lock or linearizes — the halves of a composite operation see one state -/
+theorem composite_body_is_exclusive (c1 c2 : Int) (pre : List (Act DOp)) (s s' : St DQ DOp Ret)
+    (hs : runActs SeqSpec.dqstep (initSt ⟨⟨[], c1⟩, ⟨[], c2⟩⟩) pre = some s) (t : Nat) (hcs : inCS (s.ph t))
+    (others : List (Act DOp)) (ho : ∀ a ∈ others, a.actor ≠ t)
+    (hr : runActs SeqSpec.dqstep s others = some s') :
+    s'.sh = s.sh ∧ s'.holder = some t ∧ s'.ph t = s.ph t ∧ linOps s'.log = linOps s.log :=
+  foreign_run_in_cs SeqSpec.dqstep _ s s' (reachable_inv SeqSpec.dqstep _ pre s hs) t hcs others ho hr
+
+/-- **what the outer lock is for**: done as two separately locked halves (each list still protected by its
+    own mutex — no data race, no sequential difference) Clear is not atomic … -/
+theorem finding_two_step_clear_not_atomic :
+    let d : DQ := ⟨⟨[], 0⟩, ⟨[], 0⟩⟩
+    microRun d [.clear1, .put1 7, .put2 8, .clear2] = ⟨⟨[7], 0⟩, ⟨[], 0⟩⟩ ∧
+    microRun d [.clear1, .put1 7, .put2 8, .clear2] ∉ atomicClearOutcomes d 7 8 :=
+  Queue.finding_two_step_clear_not_atomic
+
+/-- … and Size can report a number of elements the queue never held -/
+theorem finding_two_step_size_not_atomic :
+    let d0 : DQ := ⟨⟨[5], 0⟩, ⟨[], 0⟩⟩
+    let d1 := microRun d0 [.take, .put2 6]
+    d0.q1.size + d1.q2.size = 2 ∧
+    (d0.q1.size + d0.q2.size = 1) ∧ ((micro d0 .take).q1.size + (micro d0 .take).q2.size = 0) ∧
+    (d1.q1.size + d1.q2.size = 1) :=
+  Queue.finding_two_step_size_not_atomic
 
 /-! ### concurrent: the queue as a monitor object — any number of producers and consumers, any
     schedule, consumers that block before the first producer arrives included -/
